@@ -331,3 +331,48 @@ func init() {
 		Stubs:   stubsCommon,
 	})
 }
+
+const (
+	syncNo = iota
+	syncAlways
+	syncThreshold
+)
+
+func init() {
+	register(&CheckDef{
+		ID:    "C03",
+		Title: "Crash recovery exposes a prefix of the acknowledged history",
+		Reach: []string{"done", "crashed-mid-workload", "power-loss", "unsynced-acked", "batch", "torn-tail"},
+		Jobs: func(tier string) []JobSpec {
+			var js []JobSpec
+			add := func(name string, params map[string]int64) {
+				js = append(js, JobSpec{Name: name, Harness: "root", Func: "verifHarnessC03", Params: params, Scale: scaleDF(32), ReplayRestore: true, ConcCap: 200})
+			}
+			base := p("pool", 2, "klen", 1, "vlens", 2, "index", 3, "shards", 1, "powerloss", 1)
+			if tier == "quick" {
+				add("nosync-k2", merge(base, p("k", 2, "ops", opPut|opDelete|opSync, "after", 1)))
+				add("always-k2-rot", merge(base, p("k", 2, "ops", opPut|opDelete, "sync", syncAlways, "dfs_lo", 60, "dfs_hi", 100)))
+				add("threshold-k3", merge(base, p("k", 3, "ops", opPut|opDelete, "sync", syncThreshold, "vlens", 1)))
+				add("batch-k1", merge(base, p("k", 1, "ops", opBatch, "vlens", 1)))
+			} else {
+				add("nosync-k3", merge(base, p("k", 3, "ops", opPut|opDelete|opSync, "after", 1, "dfs_lo", 60, "dfs_hi", 120)))
+				add("always-k3-rot", merge(base, p("k", 3, "ops", opPut|opDelete, "sync", syncAlways, "vlens", 3, "vbig", 25, "dfs_lo", 60, "dfs_hi", 120)))
+				add("threshold-k3", merge(base, p("k", 3, "ops", opPut|opDelete|opSync, "sync", syncThreshold)))
+				add("batch-k3", merge(base, p("k", 3, "ops", opPut|opDelete|opBatch, "vlens", 1, "bsync", 1, "dfs_lo", 100, "dfs_hi", 180)))
+				add("btree-k3", merge(base, p("k", 3, "ops", opPut|opDelete|opSync, "index", 1, "shards", 2, "after", 1)))
+			}
+			js = append(js, JobSpec{Name: "witness", Harness: "root", Func: "verifHarnessC03", Params: merge(base, p("k", 1, "ops", opPut, "witness", 1)), Scale: scaleDF(32), Witness: true})
+			return js
+		},
+		Assumptions: []string{"crash points: before every mutating file-system call issued after Open (create, write, sync, close, truncate, rename, remove) and after the last one",
+			"power loss keeps a prefix of every file: a solver-chosen length between the last synced length and the current length; no garbage, no reordering; directory operations are durable in issue order",
+			"standard I/O only: the mmap back-end's unsynced-page loss is not modelled (its process-death image is covered by C20/C02)",
+			"blockSize scaled to 32 (Level 1)"},
+		Bounds: map[string]string{
+			"quick":    "K=2-3 mutations over {Put,Delete,Sync,batch<=2}, pool of 2 symbolic keys, value lengths {0,1}, SyncStrategy No/Always/Threshold (BytesPerSync symbolic), rotation by symbolic DataFileSize; crash before every FS op; process death and power loss with every tail length; one more Put + clean restart after recovery",
+			"thorough": "K=3 everywhere, value length 25 (multi-chunk), Sync batches, B-tree",
+		},
+		Outside: "torn sectors / garbage tails (C12 covers damaged bytes); mmap power loss; crashes during Open itself; I/O errors",
+		Stubs:   stubsCommon,
+	})
+}
